@@ -1,14 +1,15 @@
 """
 C19 - layout regions rotate and extract consistently with the arrays they index.
 
-Workload (EXHAUSTIVE up to the stated bound): every array shape HxW with H,W <= B (B = 4 quick / 6 thorough), every
+Workload (EXHAUSTIVE up to the stated bound): every array shape HxW with H,W <= B (B = 5 quick / 6 thorough), every
 valid region inside it, all four read-out corners, every extraction window inside the array, every `pixels` range
 and every `pixels_from_end` inside the parent region, every trailing range that stays within one row/column past the
-array, every 4-tuple / 2-tuple over [-1, B+1] for the validity rule, Region1D / Layout1D for every length <= B+2,
-Layout2D.rotated_from_roe_corner / new_rotated_from / original_orientation_from / layout_extracted_from /
-extract_parallel_overscan_array_2d_from / extract_serial_overscan_array_from with every region in every slot, and
-Array2D.original_orientation on native-stored arrays. Four endpoints need at most four distinct positions, so a side of
-4 already realises every relative order (with ties) of region and window endpoints; 6 adds larger magnitudes.
+array, every empty / reversed request (must be rejected), every 4-tuple / 2-tuple over [-1, B+1] for the validity rule,
+Region1D / Layout1D for every length <= B+2, Layout2D.rotated_from_roe_corner / new_rotated_from /
+original_orientation_from / layout_extracted_from / extract_parallel_overscan_array_2d_from /
+extract_serial_overscan_array_from with every region in every slot, and Array2D.original_orientation on native-stored
+arrays. Four endpoints need at most four distinct positions, so a side of 4 already realises every relative order
+(with ties) of region and window endpoints; 5 and 6 add larger magnitudes and more non-square shapes.
 
 Oracle: labelled arrays, cell value = unique id, so a slice identifies the cells it addressed. Rotation reference =
 own flips (rows reversed iff corner[0]==0, columns reversed iff corner[1]==1 - the read-out corner lands bottom-left);
@@ -25,14 +26,27 @@ Contracts (icontract, see every internal call incl. those made by Layout2D / Arr
 rotate_array_via_roe_corner_from, rotate_region_via_roe_corner_from, region_after_extraction, x0x1_after_extraction,
 Region2D.__init__, Region1D.__init__ - each with the same label oracle evaluated on the call's own arguments.
 
-Validated against (tools/mutant.py; each keeps the repository suite green and is caught by the QUICK tier):
-  see VALIDATED at the end of this docstring.
-
-VALIDATED
-  m19a  rotate_region (1,1): x reflected with shape_native[0] instead of [1]        (seeded break; needs H != W)
-  m19b  x0x1_after_extraction: `x1e > x1o` -> `x1e >= x1o`                             (seeded break; behaviour-neutral, see report)
-  m19c  parallel_trailing_region_from measured from y0 instead of y1                   (seeded break)
-  (further mutants of my own are listed in the final part of this docstring once validated)
+Validated against (tools/mutant.py, 2026-10-03). The three seeded breaks of DESIGN as written are not usable: two are
+killed by the repository's own suite, one is an equivalent mutant; suite-green variants of each were used instead.
+Every mutant below keeps the repository suite green (699/699) and is caught by the QUICK tier:
+  m19a2 rotate_region, corner (0,1) only: x0' = shape[1]-region[1]-1 (y1 used for x1; equal on the suite's single
+        region (0,2,1,3))                                 -> contract rotate_region, rotate.commute, layout.*
+  m19c2 parallel_trailing_region_from measured from total_rows instead of y1 (needs y0 > 0)  -> sub.parallel_trailing
+  m19d  parallel_front_region_from(pixels_from_end) uses total_columns (needs a non-square region)
+                                                          -> sub.parallel_front_from_end
+  m19e  serial_trailing_region_from measured from y1 instead of x1 (needs y1 != x1)          -> sub.serial_trailing
+  m19f  region_after_extraction takes the x-shift from extraction_region[0] (needs window y0 != x0)
+                                                          -> contract region_after_extraction, extract.*
+  m19g  Region2D accepts x0 == x1 (`>=` -> `>`)           -> contract Region2D.__init__, sub.empty_rejected, valid.*
+  m19j  Layout2D.layout_extracted_from derives serial_overscan from serial_prescan             -> layout.extracted_from
+  m19k  Array2D.original_orientation swaps the corner tuple (needs corner (0,1)/(1,0))         -> array2d.original_orientation
+  m19l  Region1D.trailing_region_from measured from total_pixels (needs x0 > 0)                -> r1d.trailing
+  m19m  Layout2D.new_rotated_from rotates serial_overscan with the transposed shape (needs H != W)
+                                                          -> layout.new_rotated_from.twice
+Also caught by quick but NOT suite-green (the suite kills them too): DESIGN's "reflect x with shape[0]" (m19a),
+"trailing region measured from y0" (m19c), touching intervals returned as empty regions (m19i).
+Not caught, correctly: DESIGN's "`x1e > x1o` -> `>=`" (m19b) is an equivalent mutant - x1e == x1o is taken by the
+preceding branch `x1e >= x0o and x1e <= x1o`, the function's input/output relation is unchanged.
 """
 import numpy as np
 
@@ -49,10 +63,10 @@ RULE = ("exhaustive enumeration: every shape HxW (H,W<=B), every region (y0<y1<=
         "region, corner | window | pixels) combination; distinct = distinct such combinations (hash of the tuple); "
         "non-trivial = not the identity instance of its kind (corner (1,0), window = whole array, pixels = whole "
         "parent are run but counted trivial)")
-BOUNDS = {"quick": "complete for B=4: 16 shapes, 400 (shape, region) pairs x 4 corners, 21 316 (region, window) pairs, all "
-                   "pixel ranges, 6^4 4-tuples and 6^2 2-tuples over [-1,5], 1-D lengths <= 6",
+BOUNDS = {"quick": "complete for B=5: 25 shapes, 1 225 (shape, region) pairs x 4 corners, 137 641 (region, window) pairs, "
+                   "all pixel ranges, 8^4 4-tuples and 8^2 2-tuples over [-1,6], 1-D lengths <= 7",
           "thorough": "complete for B=6: 36 shapes, 3 136 (shape, region) pairs x 4 corners, 659 344 (region, window) "
-                      "pairs, all pixel ranges, 8^4 4-tuples and 8^2 2-tuples over [-1,7], 1-D lengths <= 8"}
+                      "pairs, all pixel ranges, 9^4 4-tuples and 9^2 2-tuples over [-1,7], 1-D lengths <= 8"}
 EXHAUSTIVE = {"quick": True, "thorough": True}
 ASSUMPTIONS = [
     "the rotation convention is the documented one (read-out corner moved to the bottom-left (1,0): rows flipped for "
@@ -449,7 +463,7 @@ def run_ext(ctx, u):
                           got=lambda: {k: as_tuple(getattr(le, k)) for k in SLOTS})
             wc = window_class(r, w, exp)
             ctx.case("ext", H, W, r, w, nontrivial=(w != whole), cls=[wc] + rcls,
-                     sample=lambda: {"kind": "extraction", "shape": [H, W], "region": list(r), "window": list(w),
+                     sample=None if not wc.startswith("clipped") else lambda: {"kind": "extraction", "shape": [H, W], "region": list(r), "window": list(w),
                                      "marked_window": labs[r][w[0]:w[1], w[2]:w[3]].astype(int).tolist(),
                                      "expected_region": None if exp is None else list(exp)})
 
